@@ -16,6 +16,7 @@ pub mod c13;
 pub mod c14;
 pub mod c15;
 pub mod c16;
+pub mod c17;
 pub mod c18;
 pub mod files;
 pub mod hist;
@@ -40,6 +41,7 @@ pub fn run(ctx: &Ctx, part: &str) -> i32 {
         "C14" => c14::run(ctx),
         "C15" => c15::run(ctx),
         "C16" => c16::run(ctx),
+        "C17" => c17::run(ctx, part),
         "C18" => c18::run(ctx),
         other => {
             println!("INCONCLUSIVE property={} unknown check", other);
